@@ -868,6 +868,8 @@ def translate(repo):
         except pynorm.Binding as e:
             raise Unsupported(f"tlv: {e}")
         tree = pynorm.normalise_light(tree)       # module constants, chained comparisons, conditional expressions
+        tree = ast.fix_missing_locations(pynorm.int_idioms(tree))   # `>= 1 << 8k`, `x.to_bytes`, `data.append(b)`
+        tree = ast.fix_missing_locations(pynorm.push_alias_into_branches(tree))   # `children = dec` / `children = dec[tag] = {}`
         fns = check_module(tree)
     except Unsupported as e:
         fns = None
